@@ -138,8 +138,12 @@ def rule_table(ctx):
     g, mf, res = om.g, om.mf, om.res
     nodes = om.arm_nodes("Invocation")
     st = [n for n in nodes if n.kind == "stmt" and isinstance(n.ast, ast.Assign) and norm.text(n.ast.targets[0]) == "self._invocations[msg.request]"]
-    cb = [(n, c) for n in nodes for c in node_calls(n) if call_name(c) == "txaio.add_callbacks" and [norm.text(a) for a in c.args] == ["on_reply", "success", "error"]]
-    ctx.ob("invocation recorded under its request id", len(st) == 1 and norm.text(st[0].ast.value) == "InvocationRequest(msg.request, on_reply)", "record store changed", om.fn.loc())
+    recv = st[0].ast.value if len(st) == 1 else None
+    okrec = isinstance(recv, ast.Call) and call_name(recv) == "InvocationRequest" and len(recv.args) == 2 and norm.text(recv.args[0]) == "msg.request" and isinstance(recv.args[1], ast.Name)
+    pend = recv.args[1].id if okrec else None
+    cb = [(n, c) for n in nodes for c in node_calls(n) if call_name(c) == "txaio.add_callbacks" and len(c.args) == 3 and norm.text(c.args[0]) == pend
+          and [norm.text(a) for a in c.args[1:]] == ["success", "error"]]
+    ctx.ob("invocation recorded under its request id, holding the endpoint's pending result", bool(okrec), "record store changed", om.fn.loc())
     ctx.ob("record stored before the continuations are attached", len(cb) == 1 and bool(st) and g.always_preceded_by(cb[0][0], lambda x: x is st[0]),
            "continuations may run (and delete the record) before it is stored", om.fn.loc())
     dup = [n for n in nodes if n.kind == "test" and norm.atoms(n.ast, True, res) == [("in", "msg.request", ("e", "self._invocations"), True)]]
@@ -151,8 +155,8 @@ def rule_table(ctx):
     # interrupt
     inodes = om.arm_nodes("Interrupt")
     canc = [(n, c) for n in inodes for c in node_calls(n) if call_name(c) == "txaio.cancel"]
-    inv = [n for n in inodes if n.kind == "stmt" and isinstance(n.ast, ast.Assign) and norm.text(n.ast.targets[0]) == "invoked"]
-    ok = len(canc) == 1 and norm.text(canc[0][1].args[0]) == "invoked.on_reply" and len(inv) == 1 and norm.text(inv[0].ast.value) == "self._invocations[msg.request]" and \
+    from .common import canon_text
+    ok = len(canc) == 1 and len(canc[0][1].args) == 1 and canon_text(om.fn, canc[0][1].args[0]) == "self._invocations[msg.request].on_reply" and \
         ("in", "msg.request", ("e", "self._invocations"), True) in mf.at(canc[0][0])
     ctx.ob("INTERRUPT cancels the pending result of the invocation with the same id", ok, "interrupt handling changed", om.fn.loc())
 
@@ -249,3 +253,5 @@ def run(ctx):
     rule_fallback(ctx)
     rule_table(ctx)
     rule_identity(ctx)
+    from .common import rule_decorated_object
+    rule_decorated_object(ctx, "C10.5-decorated-object-endpoints", "register", "_register", "is_endpoint", False)
